@@ -9,6 +9,7 @@ import time
 from vlib import harness, env, faults, fsmon
 
 ID = 'C13'
+CONTRACTS = True     # icontract recording contracts ride along (vlib/contracts.py)
 LEVEL = 'fault_enumeration'
 RULE = ('for each writer configuration (FileWriter / PyFileWriter x pyCompile x fresh or existing '
         'destination x destination directory present or not x payload size and alphabet) a discovery '
@@ -16,7 +17,9 @@ RULE = ('for each writer configuration (FileWriter / PyFileWriter x pyCompile x 
         'py_compile / open; every discovered call site is then re-run with every applicable fault '
         '(OSError errno before the effect, error after the effect, genuine short write); the '
         'directory snapshot afterwards is judged (destination old-or-new, no stray file, writer '
-        'error type, full content on normal return); dry-run / writeMibs=False windows are watched by '
+        'error type, full content on normal return); every call site is also a crash point: a '
+        'forked process is SIGKILLed right before / after the call or half way through a write and '
+        'the destination must be the complete old or new file; dry-run / writeMibs=False windows are watched by '
         'an audit-hook sanitizer with a positive control; concurrent writers of one module with '
         'self-describing payloads are polled by a reader; non-trivial = fault at write / close / '
         'rename / mkstemp; distinct = (configuration, call site, fault)')
@@ -49,7 +52,8 @@ def plan(tier, seed):
         return {'n': 4000, 'budget_s': 40, 'min_evals': 10000,
                 'floors': {'faults_hit': 10000, 'points_write': 500, 'points_rename': 500,
                            'points_close': 500, 'points_mkstemp': 500, 'dryrun_windows': 200,
-                           'positive_control_events': 200, 'concurrent_reads': 200}}
+                           'positive_control_events': 200, 'concurrent_reads': 200,
+                           'crash_points_killed': 2000}}
     return {'n': 60000, 'budget_s': 600, 'min_evals': 20000,
             'floors': {'faults_hit': 20000, 'points_write': 1500, 'points_rename': 1500,
                        'points_close': 1500, 'points_mkstemp': 1500, 'dryrun_windows': 1500,
@@ -188,6 +192,61 @@ def run_config(cfg, rng, res):
         shutil.rmtree(base, ignore_errors=True)
 
 
+def crash_points(cfg, rng, res):
+    """SIGKILL at every discovered call site (before / after the call, mid-write): the destination
+    must hold its previous complete content or the complete new content (temp files may remain)."""
+    from pysmi.compat import encode
+    base = tempfile.mkdtemp(prefix='verif-c13k-', dir=env.scratch_root())
+    data = payload(rng, cfg['size'], cfg['alphabet'])
+    try:
+        d0 = os.path.join(base, 'disc')
+        os.makedirs(d0)
+        dst, old = setup_dir(d0, cfg, rng)
+        w, wm = make_writer(cfg, dst)
+        pl = faults.Plan()
+        with faults.Patched(wm, pl):
+            w.putData(cfg['name'], data)
+        points = [(n, q) for n, q, dg, oc in pl.log if q in ERR_FOR]
+        k = 0
+        for n, q in points:
+            kinds = ['kill_before', 'kill_after'] + (['kill_mid'] if q.endswith('.write') else [])
+            for kind in kinds:
+                k += 1
+                di = os.path.join(base, 'k%d' % k)
+                os.makedirs(di)
+                dst, old = setup_dir(di, cfg, rng)
+                pid = os.fork()
+                if pid == 0:
+                    try:
+                        w2, wm2 = make_writer(cfg, dst)
+                        with faults.Patched(wm2, faults.Plan(n, kind)):
+                            w2.putData(cfg['name'], data)
+                    finally:
+                        os._exit(0)
+                _pid, status = os.waitpid(pid, 0)
+                killed = os.WIFSIGNALED(status) and os.WTERMSIG(status) == 9
+                res.count('crash_points_run')
+                if killed:
+                    res.count('crash_points_killed')
+                target = os.path.join(dst, cfg['name'] + cfg['suffix'])
+                content = None
+                if os.path.exists(target):
+                    with open(target, 'rb') as f:
+                        content = f.read()
+                ok = (content is None and old is None) or (old is not None and content == old.encode()) or \
+                    content == encode(data)
+                res.cell('crash:%s:%s' % (q, kind))
+                if not ok:
+                    res.violation('crash_partial_destination', '%r: process killed %s %s; destination holds %s bytes, '
+                                  'neither the previous nor the new complete content' % (
+                                      cfg, kind, q, 'no' if content is None else len(content)),
+                                  replay={'config': cfg}, site=q, fault=kind, writer=cfg['writer'])
+                shutil.rmtree(di, ignore_errors=True)
+        res.evals = max(1, k)
+    finally:
+        shutil.rmtree(base, ignore_errors=True)
+
+
 def dryrun_window(cfg, rng, res):
     """dryRun / writeMibs=False: the audit hook must see no mutation below the destination"""
     from pysmi.compiler import MibCompiler
@@ -268,6 +327,11 @@ def run_case(idx, rng, tier, res):
         'name': rng.choice(['FOO-MIB', 'Bar-Mib2', 'x']),
     }
     cfg['suffix'] = rng.choice(['', '.json', '.txt']) if cfg['writer'] == 'file' else '.py'
+    if idx % 7 == 5:
+        crash_points(cfg, rng, res)
+        res.sig = harness.stable_hash(['crash', cfg])
+        res.nontrivial = True
+        return
     if idx % 7 == 6:
         dryrun_window(cfg, rng, res)
         callback_writer(rng, res)
